@@ -21,15 +21,31 @@ RULE = (
     "(truncation, bit flips, 4-byte count overwritten with a lie, string bytes invalid in UTF-8 and cp1252, corrupt / "
     "truncated zlib body, unknown code, zero-length frame, random body) + a TCP segmentation (chunk sizes incl. 1-byte "
     "dribble and cuts inside headers, optional gap between chunks) + optional terminal event (EOF / reset / partial "
-    "frame then EOF / partial frame then silence, the partial frame announcing its honest length or a lie of 64 KiB / 16 MiB / ~4 GiB) + optionally a hostile first (init) frame on accepted connections. "
+    "frame then EOF / partial frame then reset / partial frame then silence; the partial frame announces its honest "
+    "length or a lie of 64 KiB / 16 MiB / ~4 GiB and is cut at a generated offset: inside the length prefix, right "
+    "after it, or anywhere in the body) + optionally a hostile first (init) frame on accepted connections + for the "
+    "server kind (about half of the server cases) a SECOND SESSION on the same ServerConnection object: session 1 ends with its "
+    "terminal event (biased to an end inside a frame; without one the server closes), the object is connected again "
+    "(net mode: network.connect_server() + reader start; client mode: by the reconnect watchdog with "
+    "network.server.reconnect.auto and a 1-2 s timeout, or -- after EOF, where the watchdog does not reconnect by "
+    "design, or when drawn -- by network.connect_server() + client.login()), the new TCP connection is segmented from "
+    "its first byte, and session 2 receives its own generated stream of 1..6 valid / hostile frames and a probe frame. "
     "Oracle: per frame, fresh_connection.decode_message_data(frame) returns a message or raises "
     "MessageDeserializationError and nothing else (valid frames must decode to the generating value); the sequence of "
     "MessageReceivedEvents for the connection equals the decodable frames, once each, in order; afterwards the reader "
     "task is alive iff the connection is not CLOSED; no 'task died' loop error; a truncated tail closes the "
     "connection (EOF/READ_ERROR at once, TIMEOUT within the read timeout) instead of hanging; a bad first frame "
-    "closes that accepted connection only (a second connection opened afterwards still delivers). Non-trivial = a "
-    "hostile (undecodable) frame followed by at least one valid frame that must still be delivered; distinct = "
-    "distinct (kind, frame-kind sequence, rejection-cause sequence, segmentation class). Thorough additionally runs "
+    "closes that accepted connection only (a second connection opened afterwards still delivers). Session 2 is judged "
+    "by the same oracle (kinds prefixed 'second-session:'): the login answered by a valid Login.Response succeeds "
+    "(explicit login() returns within 10 virtual seconds / the automatic re-login leaves a session), the reader runs "
+    "while the connection is open, the decodable frames of stream 2 are delivered once each in order, stream 2 does "
+    "not close the connection, the probe frame is delivered. Non-trivial = a hostile (undecodable) frame followed by "
+    "at least one valid frame that must still be delivered (either session), or a session that ended after the length "
+    "prefix of an incomplete frame followed by a second session with at least one valid frame; distinct = distinct "
+    "(kind, mode, frame-kind sequence, rejection-cause sequence, segmentation class, terminal event, tail length lie, "
+    "tail cut class, second-session way + frame kinds + causes). An enumerated part replays every terminal event x "
+    "cut position x announced length x (net explicit, client explicit, client auto) with a fixed second stream, and "
+    "the honest multi-megabyte frames. Thorough additionally runs "
     "atheris (libFuzzer, coverage-guided) on decode_message_data per connection kind with the oracle 'returns a "
     "message or raises MessageDeserializationError'; findings are replayed without atheris."
 )
@@ -39,6 +55,13 @@ ASSUMPTIONS = [
     "'parsing terminates' is decided by process CPU time: decoding one frame must not burn 20 s of CPU",
     "in-memory TCP: ordered, lossless, arbitrary segmentation, strictly positive latency",
     "in client mode message classes whose legitimate handling closes or re-purposes the connection are not generated",
+    "second session: only the ServerConnection object is ever connected again by the library (peer connections are "
+    "created per TCP connection), so the dimension exists for the server kind only; the simulated server answers the "
+    "second login with a valid Login.Response within milliseconds, so a login() that raises or does not return within "
+    "10 virtual seconds is attributed to the framing state of the reused connection; that the watchdog reconnects at "
+    "all is not judged here (if it does not, the harness connects explicitly); a session 1 that ends in 'partial frame "
+    "then silence' is always followed by an explicit reconnect (watchdog off) so that the read-timeout observations "
+    "are those of session 1",
 ]
 BUDGET_S = {'quick': 150, 'thorough': 1500}
 
@@ -46,7 +69,13 @@ KINDS = ['server', 'peerP', 'peerPobf', 'peerD', 'peerDobf']
 MUTS = ['none', 'none', 'none', 'trunc', 'flip', 'lie', 'badstr', 'zlib', 'unknown', 'zero', 'random']
 ALL_MUTS = MUTS + ['huge']      # 'huge' only in the enumerated part (multi-megabyte bodies are expensive)
 HUGE_SIZES = [70 * 1024, 1024 * 1024 + 7, 9 * 1024 * 1024 + 3]
-ENDS = [None, None, None, 'eof', 'reset', 'partial-eof', 'partial-silence']
+ENDS = [None, None, None, 'eof', 'reset', 'partial-eof', 'partial-silence', 'partial-reset']
+# terminal events of session 1 when a second session follows on the same ServerConnection object: biased towards a
+# session that ends INSIDE a frame (state left behind by the interrupted read must not leak into the next session)
+S2_ENDS = ['partial-eof', 'partial-eof', 'partial-reset', 'eof', 'reset', None, 'partial-silence']
+S2_HOWS = ['auto', 'explicit']
+S2_LOGIN_BOUND_S = 10.0     # virtual seconds
+PARTIAL_ENDS = ('partial-eof', 'partial-silence', 'partial-reset')
 # announced length of the partial tail frame: honest (index 0) or a lie of 64 KiB+ / 16 MiB+ / almost 4 GiB followed
 # by 8 body bytes ("a length prefix that lies by a lot, then silence"): the read timeout must still end the read
 LIE_LENS = [None, 64 * 1024 + 5, 16 * 1024 * 1024 + 1, 0xFFFFFF00]
@@ -81,6 +110,22 @@ def frame_strategy(draw, kind, client):
             'a': draw(st.integers(0, 2 ** 16)), 'b': draw(st.integers(0, 2 ** 16)), 'okey': base['obf_key']}
 
 
+_SEG = (st.none() | st.just([1]) | st.just([3]) | st.lists(st.integers(1, 40), min_size=1, max_size=6) |
+        st.lists(st.sampled_from([1, 2, 3, 4, 5, 7, 8, 9, 64, 1000]), min_size=1, max_size=4))
+
+
+@st.composite
+def second_session_strategy(draw, client):
+    """Session 2 on the SAME ServerConnection object: how the client gets there + the stream it receives."""
+    return {
+        'how': draw(st.sampled_from(S2_HOWS)) if client else 'explicit',
+        'rt': draw(st.sampled_from([1, 1, 2])),
+        'frames': draw(st.lists(frame_strategy('server', client), min_size=1, max_size=6)),
+        'seg': draw(_SEG),
+        'gap': draw(st.sampled_from([0, 0, 1])),
+    }
+
+
 @st.composite
 def case_strategy(draw, mode=None):
     kind = draw(st.sampled_from(KINDS))
@@ -88,9 +133,8 @@ def case_strategy(draw, mode=None):
     if client:
         kind = draw(st.sampled_from(['server', 'server', 'peerP', 'peerD']))
     frames = draw(st.lists(frame_strategy(kind, client), min_size=1, max_size=12))
-    seg = draw(st.none() | st.just([1]) | st.just([3]) | st.lists(st.integers(1, 40), min_size=1, max_size=6) |
-               st.lists(st.sampled_from([1, 2, 3, 4, 5, 7, 8, 9, 64, 1000]), min_size=1, max_size=4))
-    return {
+    seg = draw(_SEG)
+    case = {
         'mode': 'client' if client else 'net',
         'kind': kind,
         'frames': frames,
@@ -98,9 +142,17 @@ def case_strategy(draw, mode=None):
         'gap': draw(st.sampled_from([0, 0, 1])),
         'end': draw(st.sampled_from(ENDS)),
         'plen': draw(st.sampled_from([0, 0, 1, 2, 3])),
+        # where the partial tail frame is cut: None = 2 bytes before its end, else 1 + tcut % (len - 1) bytes are sent
+        # (inside the header, right after the header, anywhere in the body)
+        'tcut': draw(st.none() | st.integers(0, 40)),
         'bad_first': draw(st.integers(0, 5)) == 0 and kind != 'server',
         'init_key': draw(st.binary(min_size=4, max_size=4)).hex(),
+        's2': None,
     }
+    if kind == 'server' and draw(st.integers(0, 2)) > 0:
+        case['s2'] = draw(second_session_strategy(client))
+        case['end'] = draw(st.sampled_from(S2_ENDS))
+    return case
 
 
 # ---------------------------------------------------------------------------
@@ -214,21 +266,29 @@ class _CpuLimitExceeded(BaseException):
 
 
 class _cpu_limit:
-    """Raise _CpuLimitExceeded in the main thread after ``seconds`` of *process CPU time* (ITIMER_VIRTUAL)."""
+    """Raise _CpuLimitExceeded in the main thread after ``seconds`` of *process CPU time* (ITIMER_VIRTUAL).
+
+    The timer repeats (every 0.25 s of CPU time after the first expiry) until the block is left: a signal handler
+    that happens to run inside a garbage-collector callback or a ``__del__`` has its exception swallowed ("Exception
+    ignored in ..."), and a one-shot timer would then never stop a decoder that does not terminate."""
 
     def __init__(self, seconds):
         self.seconds = seconds
+        self.active = False
 
     def __enter__(self):
         import signal
 
         def fire(signum, frame):
-            raise _CpuLimitExceeded()
+            if self.active:
+                raise _CpuLimitExceeded()
         self.old = signal.signal(signal.SIGVTALRM, fire)
-        signal.setitimer(signal.ITIMER_VIRTUAL, self.seconds)
+        self.active = True
+        signal.setitimer(signal.ITIMER_VIRTUAL, self.seconds, 0.25)
         return self
 
     def __exit__(self, *exc):
+        self.active = False
         import signal
         signal.setitimer(signal.ITIMER_VIRTUAL, 0)
         signal.signal(signal.SIGVTALRM, self.old)
@@ -252,19 +312,14 @@ def _fresh_connection(kind, established=True):
     return c
 
 
-def _sanitise(case):
-    kind = case.get('kind') if case.get('kind') in KINDS else 'server'
-    mode = 'client' if case.get('mode') == 'client' else 'net'
-    if mode == 'client' and kind not in ('server', 'peerP', 'peerD'):
-        kind = 'server'
+def _sanitise_frames(raw, kind, mode, limit):
     frames = []
     legal = set(keys_for(kind))
-    for f in (case.get('frames') or [])[:12]:
+    for f in (raw if isinstance(raw, list) else [])[:limit]:
         try:
             key = f['key']
             if key not in legal or (mode == 'client' and key in CLIENT_EXCLUDE):
                 continue
-            probe = CaseResult()
             # reuse the C01 domain validation: run only the sanitising prefix
             fields = wire_ref.BY_KEY[key]['fields']
             values = f['values']
@@ -294,22 +349,48 @@ def _sanitise(case):
             frames.append({'key': key, 'values': values, 'mut': mut,
                            'a': max(0, min(2 ** 16, int(f.get('a', 0)))), 'b': max(0, min(2 ** 16, int(f.get('b', 0)))),
                            'okey': (str(f.get('okey', '')) + '00000000')[:8]})
-            del probe
         except Exception:
             continue
-    seg = case.get('seg')
+    return frames
+
+
+def _sanitise_seg(seg):
     if isinstance(seg, list):
-        seg = [max(1, min(5000, int(x))) for x in seg if isinstance(x, int)][:8] or None
-    else:
-        seg = None
+        return [max(1, min(5000, int(x))) for x in seg if isinstance(x, int) and not isinstance(x, bool)][:8] or None
+    return None
+
+
+def _sanitise(case):
+    kind = case.get('kind') if case.get('kind') in KINDS else 'server'
+    mode = 'client' if case.get('mode') == 'client' else 'net'
+    if mode == 'client' and kind not in ('server', 'peerP', 'peerD'):
+        kind = 'server'
+    frames = _sanitise_frames(case.get('frames'), kind, mode, 12)
+    seg = _sanitise_seg(case.get('seg'))
     end = case.get('end') if case.get('end') in ENDS else None
     try:
         init_key = bytes.fromhex((str(case.get('init_key', '')) + '00000000')[:8])
     except ValueError:
         init_key = b'\0\0\0\0'
     plen = case.get('plen') if case.get('plen') in (0, 1, 2, 3) else 0
+    tcut = case.get('tcut')
+    tcut = max(0, min(10 ** 6, tcut)) if isinstance(tcut, int) and not isinstance(tcut, bool) else None
+    # second session on the same ServerConnection object (only the server connection is ever connected again)
+    s2 = None
+    raw2 = case.get('s2')
+    if kind == 'server' and isinstance(raw2, dict):
+        frames2 = _sanitise_frames(raw2.get('frames'), kind, mode, 8)
+        if frames2:
+            how = raw2.get('how') if (raw2.get('how') in S2_HOWS and mode == 'client') else 'explicit'
+            if end == 'partial-silence':
+                # the read timeout is awaited with the watchdog off: otherwise the watchdog reconnects while the
+                # harness still waits and the post-timeout observations would be those of the next session
+                how = 'explicit'
+            s2 = {'how': how, 'rt': raw2.get('rt') if raw2.get('rt') in (1, 2) else 1, 'frames': frames2,
+                  'seg': _sanitise_seg(raw2.get('seg')), 'gap': 1 if raw2.get('gap') else 0}
     return {'mode': mode, 'kind': kind, 'frames': frames, 'seg': seg, 'gap': 1 if case.get('gap') else 0,
-            'end': end, 'plen': plen, 'bad_first': bool(case.get('bad_first')) and kind != 'server', 'init_key': init_key}
+            'end': end, 'plen': plen, 'tcut': tcut, 'bad_first': bool(case.get('bad_first')) and kind != 'server',
+            'init_key': init_key, 's2': s2}
 
 
 FUZZ_KINDS = ['server', 'peerP', 'peerD', 'init']
@@ -375,30 +456,14 @@ def _fuzz_tier(ctx):
         shutil.rmtree(tmp, ignore_errors=True)
 
 
-def run_case(case) -> CaseResult:
-    res = CaseResult()
-    if isinstance(case, dict) and case.get('t') == 'raw':
-        run_raw_case(case, res)
-        return res
-    c = _sanitise(case)
-    if not c['frames']:
-        return res
-    from aioslsk.events import ConnectionStateChangedEvent, EventBus, MessageReceivedEvent
+def _differential(frames, kind, group, res):
+    """Per-frame differential: -> (built [(bytes, mutation)], expected [message | None], causes) or None when the
+    decoder did not terminate (reported)."""
     from aioslsk.exceptions import MessageDeserializationError
-    from aioslsk.network.connection import CloseReason, ConnectionState, PeerConnection, ServerConnection
-    from aioslsk.network.network import Network
-    from aioslsk.protocol import messages as M
-
-    kind, mode = c['kind'], c['mode']
-    group = _group(kind)
-    obf_port = kind.endswith('obf')
-    frames_obf = kind == 'peerPobf'          # D connections are only obfuscated for the init message
-
-    # ---- per-frame differential (pure part) ----------------------------------
     built = []
     expected = []       # message | None (rejected)
     causes = []
-    for f in c['frames']:
+    for f in frames:
         data, applied = build_frame(f, group)
         built.append((data, applied))
         conn = _fresh_connection(kind)
@@ -421,7 +486,7 @@ def run_case(case) -> CaseResult:
             # CPU time (process CPU time, independent of machine load) -- the stream part would never return
             res.violate(f'C02/decoder-does-not-terminate:{applied}', f'{f["key"]} frame of {len(data)} bytes: '
                         f'decode_message_data used more than {DECODE_CPU_LIMIT_S} s of CPU time; {data[:48].hex()}')
-            return res
+            return None
         except MessageDeserializationError as exc:
             expected.append(None)
             cause = type(exc.__cause__).__name__ if exc.__cause__ is not None else 'None'
@@ -436,6 +501,64 @@ def run_case(case) -> CaseResult:
         res.label('cause:' + cz)
     for _, applied in built:
         res.label('mut:' + applied)
+    return built, expected, causes
+
+
+def _delivery_violation(res, prefix, got_msgs, expected, causes, built, state, reader_alive):
+    """Delivered sequence != decodable frames: classify as lost-after-<cause of the frame before> / differs."""
+    exp_msgs = [m for m in expected if m is not None]
+    if got_msgs == exp_msgs:
+        return
+    if len(got_msgs) < len(exp_msgs) and got_msgs == exp_msgs[:len(got_msgs)]:
+        idx = len(got_msgs)
+        # which frame kind preceded the loss?
+        pos = -1
+        seen = -1
+        for j, m in enumerate(expected):
+            if m is not None:
+                seen += 1
+                if seen == idx:
+                    pos = j
+                    break
+        prev = causes[pos - 1] if pos > 0 else 'start'
+        res.violate(f'{prefix}frames-lost-after:{prev}',
+                    f'{len(got_msgs)}/{len(exp_msgs)} delivered; state={state} '
+                    f'reader_alive={reader_alive} muts={[a for _, a in built]}')
+    else:
+        res.violate(f'{prefix}delivery-sequence-differs', f'got {got_msgs!r:.300} expected {exp_msgs!r:.300}')
+
+
+def run_case(case) -> CaseResult:
+    res = CaseResult()
+    if isinstance(case, dict) and case.get('t') == 'raw':
+        run_raw_case(case, res)
+        return res
+    c = _sanitise(case)
+    if not c['frames']:
+        return res
+    from aioslsk.events import ConnectionStateChangedEvent, EventBus, MessageReceivedEvent
+    from aioslsk.exceptions import MessageDeserializationError
+    from aioslsk.network.connection import CloseReason, ConnectionState, PeerConnection, ServerConnection
+    from aioslsk.network.network import Network
+    from aioslsk.protocol import messages as M
+
+    kind, mode = c['kind'], c['mode']
+    group = _group(kind)
+    obf_port = kind.endswith('obf')
+    frames_obf = kind == 'peerPobf'          # D connections are only obfuscated for the init message
+
+    # ---- per-frame differential (pure part) ----------------------------------
+    diff = _differential(c['frames'], kind, group, res)
+    if diff is None:
+        return res
+    built, expected, causes = diff
+    s2 = c['s2']
+    built2 = expected2 = causes2 = None
+    if s2 is not None:
+        diff = _differential(s2['frames'], kind, group, res)
+        if diff is None:
+            return res
+        built2, expected2, causes2 = diff
 
     # ---- stream part ----------------------------------------------------------
     end = c['end']
@@ -460,7 +583,8 @@ def run_case(case) -> CaseResult:
     for wf in wire_frames:
         stream += wf
     partial = b''
-    if end in ('partial-eof', 'partial-silence'):
+    cut_class = None
+    if end in PARTIAL_ENDS:
         tail = M.GetUserStatus.Response('x', 1, False).serialize() if kind == 'server' else (
             M.PeerPlaceInQueueReply.Request('name', 3).serialize() if group == 'peer' else
             M.DistributedBranchLevel.Request(3).serialize())
@@ -468,9 +592,13 @@ def run_case(case) -> CaseResult:
             tail = struct.pack('<I', LIE_LENS[c['plen']]) + tail[4:12].ljust(8, b'\0') + b'..'
         if frames_obf:
             tail = wire_ref.obf_encode(tail, b'\x01\x02\x03\x04')
-        partial = tail[:len(tail) - 2]
+        keep = len(tail) - 2 if c['tcut'] is None else 1 + c['tcut'] % (len(tail) - 1)
+        partial = tail[:keep]
+        hdr = 8 if frames_obf else 4
+        cut_class = 'in-header' if keep < hdr else ('after-header' if keep == hdr else 'in-body')
         if not bad_first:
             stream += partial
+    stream2 = b''.join(d for d, _ in built2) if s2 is not None else b''
 
     # expectation for a bad first frame: decoded as init message
     first_ok = True
@@ -491,12 +619,84 @@ def run_case(case) -> CaseResult:
 
     out = {}
 
+    async def second_session(world, client, network, target, ep, delivered, states):
+        """Session 2 on the same ServerConnection object (kind == 'server' only)."""
+        d = out['s2'] = {}
+
+        def alive():
+            return target._reader_task is not None and not target._reader_task.done()
+        if target.state != ConnectionState.CLOSED:
+            # no terminal event (or a partial tail the library kept waiting for): the server closes the connection
+            d['server_closed'] = True
+            ep.close()
+            await asyncio.sleep(0.05)
+        d['state_before'] = target.state
+        if target.state != ConnectionState.CLOSED:
+            return
+        reasons = [r for cn, s, r in states if cn is target and s == ConnectionState.CLOSED]
+        d['close_reason'] = reasons[-1].name if reasons else None
+        seg = s2['seg']
+        gap = 0.0002 if s2['gap'] else 0.0
+        # the new TCP connection is segmented from its first byte (the login response is dribbled too)
+        world.server.listener.seg, world.server.listener.gap = seg, gap
+        world.server.auto = True
+        n_sessions = len(world.server.sessions)
+        n_states = len(states)
+        if s2['how'] == 'auto':
+            # watchdog interval (0.5 s) + reconnect timeout + connect + login round trip. The watchdog does not
+            # reconnect after EOF / a requested close (by design): then the harness connects explicitly below
+            await asyncio.sleep(0.5 + s2['rt'] + 1.5)
+            d['auto_reconnected'] = len(world.server.sessions) > n_sessions
+        if len(world.server.sessions) == n_sessions:
+            try:
+                await network.connect_server()
+                if client is not None:
+                    # the simulated server answers the login within milliseconds with a valid Login.Response
+                    await asyncio.wait_for(client.login(), S2_LOGIN_BOUND_S)
+                else:
+                    network.server_connection.start_reader_task()
+            except asyncio.TimeoutError:
+                d['login_exc'] = (f'login() did not return within {S2_LOGIN_BOUND_S} s although the server sent a '
+                                  f'valid Login.Response')
+            except Exception as exc:
+                d['login_exc'] = f'{type(exc).__name__}: {exc}'[:300]
+        if client is not None:
+            await asyncio.sleep(0.5)
+            d['logged_in'] = client.session is not None
+        world.server.auto = False
+        d['same_object'] = network.server_connection is target
+        d['connected'] = len(world.server.sessions) > n_sessions
+        if not d['connected']:
+            return
+        ep2 = world.server.sessions[-1]
+        d['state_after_login'] = target.state
+        d['reader_alive_after_login'] = alive()
+        n0 = len(delivered)
+        ep2.send(bytes(stream2))
+        n_chunks = (len(stream2) // min(seg)) + 1 if seg else 1
+        await asyncio.sleep(0.05 + n_chunks * (gap + 1e-6) * 1.5)
+        d['delivered'] = [m for cn, m in delivered[n0:] if cn is target]
+        d['state_after_stream'] = target.state
+        d['close_reasons'] = [r for cn, s, r in states[n_states:] if cn is target and s == ConnectionState.CLOSED]
+        d['reader_alive_after_stream'] = alive()
+        if target.state != ConnectionState.CLOSED:
+            pm = M.GetUserStatus.Response('probe-s2', 1, False)
+            data = pm.serialize()
+            before = len(delivered)
+            ep2.send(data)
+            await asyncio.sleep(0.05 + len(data) * (gap + 1e-6) * 1.5)
+            d['probe_ok'] = any(m == pm and cn is target for cn, m in delivered[before:])
+
     async def main(world: simworld.World):
         loop = world.loop
         seg = c['seg']
         gap = 0.0002 if c['gap'] else 0.0
         world.server.auto = True
         settings = simworld.mk_settings('me')
+        if s2 is not None and s2['how'] == 'auto':
+            # the reconnect watchdog connects the same ServerConnection object again (and the client logs on again)
+            settings.network.server.reconnect.auto = True
+            settings.network.server.reconnect.timeout = s2['rt']
         delivered = []
         states = []
 
@@ -557,7 +757,9 @@ def run_case(case) -> CaseResult:
             ep.reset()
         elif end == 'partial-eof':
             ep.close()
-        if end in ('eof', 'reset', 'partial-eof'):
+        elif end == 'partial-reset':
+            ep.reset()
+        if end in ('eof', 'reset', 'partial-eof', 'partial-reset'):
             await asyncio.sleep(0.05)
             out['state_after_end'] = target.state
             out['reasons'] = [r for cn, s, r in states if cn is target and s == ConnectionState.CLOSED]
@@ -592,6 +794,8 @@ def run_case(case) -> CaseResult:
             ep.send(data)
             await asyncio.sleep(0.05 + len(data) * (gap + 1e-6) * 1.5)
             out['same_ok'] = any(m == pm and cn is target for cn, m in delivered[before:])
+        if s2 is not None:
+            await second_session(world, client, network, target, ep, delivered, states)
         if client is not None:
             await client.stop()
         else:
@@ -626,25 +830,9 @@ def run_case(case) -> CaseResult:
         if legit_close:
             res.label('closed-by-handler')
             exp_msgs = got_msgs
-        if got_msgs != exp_msgs:
-            # classify: lost / duplicated / reordered / extra
-            if len(got_msgs) < len(exp_msgs) and got_msgs == exp_msgs[:len(got_msgs)]:
-                idx = len(got_msgs)
-                # which frame kind preceded the loss?
-                pos = -1
-                seen = -1
-                for j, m in enumerate(expected):
-                    if m is not None:
-                        seen += 1
-                        if seen == idx:
-                            pos = j
-                            break
-                prev = causes[pos - 1] if pos > 0 else 'start'
-                res.violate(f'C02/frames-lost-after:{prev}',
-                            f'{len(got_msgs)}/{len(exp_msgs)} delivered; state={out.get("state_after_stream")} '
-                            f'reader_alive={out.get("reader_alive_after_stream")} muts={[a for _, a in built]}')
-            else:
-                res.violate('C02/delivery-sequence-differs', f'got {got_msgs!r:.300} expected {exp_msgs!r:.300}')
+        if not legit_close:
+            _delivery_violation(res, 'C02/', got_msgs, expected, causes, built, out.get('state_after_stream'),
+                                out.get('reader_alive_after_stream'))
         if st_after != CS.CLOSED and not out.get('reader_alive_after_stream'):
             res.violate('C02/reader-stopped-connection-open', f'state={st_after} causes={causes}')
         if st_after == CS.CLOSED and end is None and not legit_close:
@@ -653,7 +841,7 @@ def run_case(case) -> CaseResult:
             # every message the library sends on a connection extends its read deadline (by design), so the
             # bounded-close expectation only applies when it wrote nothing after the stream started
             res.label('partial-silence-skipped-library-wrote')
-        elif end in ('eof', 'reset', 'partial-eof', 'partial-silence'):
+        elif end in ('eof', 'reset', 'partial-eof', 'partial-silence', 'partial-reset'):
             if out.get('state_after_end') != CS.CLOSED:
                 res.violate(f'C02/not-closed-after:{end}' + (':lying-length' if c['plen'] else ''),
                             f'state={out.get("state_after_end")} announced tail length '
@@ -670,23 +858,80 @@ def run_case(case) -> CaseResult:
             res.violate('C02/desynchronised-after-stream', f'probe frame not delivered; causes={causes}')
         if out.get('second_ok') is False:
             res.violate('C02/other-connection-broken', '')
+    # ---- second session on the same ServerConnection object: the same oracle for its own stream -------------
+    d = out.get('s2')
+    s2_inside = False
+    if d is not None:
+        P = 'C02/second-session:'
+        s2_inside = cut_class in ('after-header', 'in-body')
+        if d.get('state_before') != CS.CLOSED:
+            res.violate('C02/not-closed-after:server-close', f'state={d.get("state_before")} end={end}')
+        elif not d.get('connected'):
+            res.violate(P + 'connect-failed', f'{d.get("login_exc")} close_reason={d.get("close_reason")}')
+        else:
+            how = 'auto' if d.get('auto_reconnected') else 'explicit'
+            res.label('s2:' + how, 's2:after-' + str(d.get('close_reason')))
+            if not d.get('same_object'):
+                res.label('s2:connection-object-replaced')
+            ctx_txt = (f'session 1 ended with {end} (tail cut {cut_class}, announced '
+                       f'{LIE_LENS[c["plen"]] if c["plen"] and end in PARTIAL_ENDS else "honest"}), closed as '
+                       f'{d.get("close_reason")}; session 2 by {how}')
+            if 'login_exc' in d or (mode == 'client' and not d.get('logged_in')):
+                # the server answered the login of session 2 with a valid Login.Response frame
+                res.violate(P + 'login-failed', f'{d.get("login_exc") or "no session after the automatic re-login"}; '
+                            f'state={d.get("state_after_login")} reader_alive={d.get("reader_alive_after_login")}; '
+                            + ctx_txt)
+            if d.get('state_after_login') != CS.CLOSED and not d.get('reader_alive_after_login'):
+                res.violate(P + 'reader-not-running-connection-open', f'state={d.get("state_after_login")}; ' + ctx_txt)
+            got2 = d.get('delivered', [])
+            exp2 = [m for m in expected2 if m is not None]
+            st2 = d.get('state_after_stream')
+            legit2 = (mode == 'client' and st2 == CS.CLOSED and got2 and
+                      d.get('close_reasons') == [CloseReason.REQUESTED] and got2 == exp2[:len(got2)])
+            if legit2:
+                res.label('s2:closed-by-handler')
+            else:
+                _delivery_violation(res, P, got2, expected2, causes2, built2, st2, d.get('reader_alive_after_stream'))
+                if st2 == CS.CLOSED:
+                    res.violate(P + 'connection-closed-by-stream',
+                                f'reasons={[r.name for r in d.get("close_reasons", [])]} causes={causes2}; ' + ctx_txt)
+            if st2 != CS.CLOSED and not d.get('reader_alive_after_stream'):
+                res.violate(P + 'reader-stopped-connection-open', f'state={st2} causes={causes2}; ' + ctx_txt)
+            if d.get('probe_ok') is False:
+                res.violate(P + 'desynchronised-after-stream', f'probe frame not delivered; causes={causes2}; ' + ctx_txt)
     for e in loop_errors:
         res.violate(f'C02/loop-error:{e["exc_type"]}', str(e)[:300])
         break
 
     hostile_then_valid = any(expected[i] is None and any(m is not None for m in expected[i + 1:])
                              for i in range(len(expected)))
-    res.nontrivial = bool(hostile_then_valid or (bad_first and out.get('second_ok') is not None))
+    if expected2:
+        hostile_then_valid = hostile_then_valid or any(
+            expected2[i] is None and any(m is not None for m in expected2[i + 1:]) for i in range(len(expected2)))
+    # a session that ended inside a frame followed by a session whose valid frames must all be delivered
+    midframe_then_valid = bool(s2_inside and any(m is not None for m in expected2))
+    res.nontrivial = bool(hostile_then_valid or midframe_then_valid or (bad_first and out.get('second_ok') is not None))
     seg = c['seg']
     seg_class = 'none' if not seg else ('dribble' if max(seg) <= 3 else ('small' if max(seg) <= 9 else 'mixed'))
-    res.key = [kind, mode, [a for _, a in built], causes, seg_class, end, c['plen'] if end in ('partial-eof', 'partial-silence') else 0, bad_first]
+    res.key = [kind, mode, [a for _, a in built], causes, seg_class, end, c['plen'] if end in PARTIAL_ENDS else 0,
+               bad_first]
+    if end in PARTIAL_ENDS and c['tcut'] is not None:
+        res.key.append(cut_class)
+    if s2 is not None:
+        res.key.append([s2['how'], [a for _, a in built2], causes2])
     res.label('kind:' + kind, 'mode:' + mode, 'seg:' + seg_class, 'end:' + str(end))
-    if end in ('partial-eof', 'partial-silence') and c['plen']:
+    if end in PARTIAL_ENDS and c['plen']:
         res.label('tail-length-lie:%d' % c['plen'])
+    if end in PARTIAL_ENDS and not bad_first:
+        res.label('tail-cut:' + cut_class)
     if bad_first:
         res.label('bad-first')
     if hostile_then_valid:
         res.label('hostile-then-valid')
+    if s2 is not None:
+        res.label('second-session', 'second-session:' + mode + ':' + s2['how'])
+        if midframe_then_valid:
+            res.label('second-session:after-mid-frame-end')
     return res
 
 
@@ -709,8 +954,31 @@ def _huge_cases():
                        'plen': plen, 'bad_first': False, 'init_key': '0a0b0c0d'}
 
 
+def _second_session_cases():
+    """Session 1 ends in every terminal event (tail cut inside the header / right after it / inside the body, honest
+    and lying announced lengths), then the same ServerConnection object is connected again (explicitly; in client mode
+    also by the reconnect watchdog) and receives valid frame, undecodable frame, valid frame."""
+    key, values = 'server:GetUserStatus:Response', {'username': 'u', 'status': 1, 'privileged': False}
+
+    def fr(mut, name):
+        return {'key': key, 'values': dict(values, username=name), 'mut': mut, 'a': 5, 'b': 1, 'okey': '01020304'}
+    ends = [('partial-eof', 0, None), ('partial-eof', 0, 3), ('partial-eof', 0, 8), ('partial-eof', 0, 1),
+            ('partial-eof', 1, None), ('partial-eof', 2, 3), ('partial-eof', 3, None), ('partial-reset', 0, None),
+            ('partial-reset', 0, 3), ('partial-reset', 2, None), ('partial-silence', 0, None), ('partial-silence', 0, 3),
+            ('partial-silence', 3, None), ('eof', 0, None), ('reset', 0, None), (None, 0, None)]
+    for mode, how in (('net', 'explicit'), ('client', 'explicit'), ('client', 'auto')):
+        for end, plen, tcut in ends:
+            for seg2 in (None, [1]):
+                yield {'mode': mode, 'kind': 'server', 'frames': [fr('none', 's1-a'), fr('unknown', 's1-b'), fr('none', 's1-c')],
+                       'seg': None, 'gap': 0, 'end': end, 'plen': plen, 'tcut': tcut, 'bad_first': False,
+                       'init_key': '0a0b0c0d',
+                       's2': {'how': how, 'rt': 1, 'seg': seg2, 'gap': 0,
+                              'frames': [fr('none', 's2-a'), fr('trunc', 's2-b'), fr('none', 's2-c')]}}
+
+
 def run_shard(ctx):
     ctx.enumerate(_huge_cases())
+    ctx.enumerate(_second_session_cases())
     n_net = 450 if ctx.tier == 'quick' else 9000
     n_client = 50 if ctx.tier == 'quick' else 1500
     ctx.explore(case_strategy(), n_net)
@@ -721,12 +989,16 @@ def run_shard(ctx):
 
 MANIFEST_ENTRY = {
     'technique': 'property-based testing (Hypothesis): generated frame streams (valid + 8 hostile kinds) x TCP '
-                 'segmentation x connection kind on an in-memory TCP layer; per-frame differential + exactly-once '
-                 'in-order delivery + reader liveness oracle',
+                 'segmentation x connection kind x terminal event (incl. truncated frame + EOF / reset / silence at a '
+                 'generated cut offset) x second session on the re-connected ServerConnection object, on an in-memory '
+                 'TCP layer; per-frame differential + exactly-once in-order delivery + reader liveness oracle',
     'level_text': 'Generated-stream exploration of the real reader loop, accept path and decoder: every frame is '
                   'decoded in isolation (message or MessageDeserializationError, nothing else) and the delivered event '
-                  'sequence of the stream is compared with that per-frame expectation under arbitrary segmentation. '
-                  'Sampled streams; no proof.',
-    'level_note': 'Trusted base: in-memory TCP model, reference encoder (frames are built without the library), '
-                  'Hypothesis. Length prefixes of complete frames are capped at 64 KiB except the enumerated honest 70 KiB / 1 MiB / 9 MiB frames; truncated tails announce up to ~4 GiB.',
+                  'sequence of the stream is compared with that per-frame expectation under arbitrary segmentation; '
+                  'for the server connection also for a second stream after the same connection object was connected '
+                  'again (reconnect watchdog or connect_server() + login()) following a session that ended at a frame '
+                  'boundary or inside a frame. Sampled streams; no proof.',
+    'level_note': 'Trusted base: in-memory TCP model, simulated server (login reply), reference encoder (frames are '
+                  'built without the library), Hypothesis. Length prefixes of complete frames are capped at 64 KiB '
+                  'except the enumerated honest 70 KiB / 1 MiB / 9 MiB frames; truncated tails announce up to ~4 GiB.',
 }
